@@ -429,6 +429,36 @@ func (l *L) UnmarshalJSON(b []byte) error {
 	return doUnmarshal(b, func(c int, s string) { *l = L{Case: c, Payload: s} })
 }
 
+// TextOnly, BinOnly and JSONOnly implement one encoding each (both directions): a helper of
+// another encoding must report them as lacking its interface, the matching one must not.
+type (
+	TextOnly struct {
+		Case    int
+		Payload string
+	}
+	BinOnly struct {
+		Case    int
+		Payload string
+	}
+	JSONOnly struct {
+		Case    int
+		Payload string
+	}
+)
+
+func (v TextOnly) MarshalText() ([]byte, error) { return doMarshal(v.Case) }
+func (v *TextOnly) UnmarshalText(b []byte) error {
+	return doUnmarshal(b, func(c int, p string) { v.Case, v.Payload = c, p })
+}
+func (v BinOnly) MarshalBinary() ([]byte, error) { return doMarshal(v.Case) }
+func (v *BinOnly) UnmarshalBinary(b []byte) error {
+	return doUnmarshal(b, func(c int, p string) { v.Case, v.Payload = c, p })
+}
+func (v JSONOnly) MarshalJSON() ([]byte, error) { return doMarshal(v.Case) }
+func (v *JSONOnly) UnmarshalJSON(b []byte) error {
+	return doUnmarshal(b, func(c int, p string) { v.Case, v.Payload = c, p })
+}
+
 // OnlyM implements only the marshal side, OnlyU only the unmarshal side, None neither.
 type (
 	OnlyM struct {
